@@ -547,4 +547,271 @@ theorem GLang_srcLb (src : List σ) (E : σ → σ → Language Char) (init : σ
     simp only [List.nil_append] at this
     exact this
 
+/-! ### `from_dfa` -/
+
+theorem alookup_castRow (row : List (σ × Str)) (r : σ) :
+    alookup r (castRow row) = (alookup r row).map some := by
+  unfold castRow
+  induction row with
+  | nil => rfl
+  | cons e t ih =>
+    obtain ⟨a, b⟩ := e
+    simp only [List.map_cons, alookup_cons, ih]
+    by_cases h : a = r <;> simp [h]
+
+theorem alookup_eq_some_of_mem {l : List (κ × β)} (hnd : (akeys l).Nodup) {k : κ} {v : β}
+    (h : (k, v) ∈ l) : alookup k l = some v := by
+  induction l with
+  | nil => simp at h
+  | cons e t ih =>
+    obtain ⟨a, b⟩ := e
+    simp only [akeys, List.map_cons, List.nodup_cons] at hnd
+    rw [alookup_cons]
+    rcases List.mem_cons.mp h with h1 | h1
+    · cases h1; simp
+    · have : a ≠ k := by
+        rintro rfl
+        exact hnd.1 (List.mem_map.mpr ⟨(a, v), h1, rfl⟩)
+      rw [if_neg this]
+      exact ih hnd.2 h1
+
+/-- The one-symbol words leading from a row of a DFA to `t`. -/
+def SymsTo (row : List (Char × σ)) (t : σ) : Language Char := {w | ∃ a, (a, t) ∈ row ∧ w = [a]}
+
+theorem mem_SymsTo {row : List (Char × σ)} {t : σ} {w : List Char} :
+    w ∈ SymsTo row t ↔ ∃ a, (a, t) ∈ row ∧ w = [a] := Iff.rfl
+
+theorem mem_symLang {a : Char} {w : List Char} : w ∈ ({[a]} : Language Char) ↔ w = [a] := Iff.rfl
+
+theorem SymsTo_snoc (done : List (Char × σ)) (a : Char) (t0 t : σ) :
+    SymsTo (done ++ [(a, t0)]) t = SymsTo done t + (if t = t0 then {[a]} else 0) := by
+  ext w
+  rw [Language.mem_add, mem_SymsTo, mem_SymsTo]
+  constructor
+  · rintro ⟨a', h, rfl⟩
+    rcases List.mem_append.mp h with h | h
+    · exact Or.inl ⟨a', h, rfl⟩
+    · simp only [List.mem_singleton, Prod.mk.injEq] at h
+      obtain ⟨rfl, rfl⟩ := h
+      right; rw [if_pos rfl]; exact mem_symLang.mpr rfl
+  · rintro (⟨a', h, rfl⟩ | h)
+    · exact ⟨a', List.mem_append.mpr (Or.inl h), rfl⟩
+    · by_cases ht : t = t0
+      · rw [if_pos ht] at h
+        exact ⟨a, List.mem_append.mpr (Or.inr (by simp [ht])), mem_symLang.mp h⟩
+      · rw [if_neg ht] at h; exact absurd h (Language.notMem_zero w)
+
+/-- Invariant of the label-merging loop of `from_dfa`. -/
+structure MInv (done : List (Char × σ)) (acc : List (σ × Str)) : Prop where
+  none_ : ∀ t, alookup t acc = none → ∀ a, (a, t) ∉ done
+  some_ : ∀ t s, alookup t acc = some s →
+    (∃ e, Renders .U e s ∧ e.den = SymsTo done t) ∧ ∃ a, (a, t) ∈ done
+
+theorem mergeDfa_fold :
+    ∀ (rest done : List (Char × σ)) (acc : List (σ × Str)),
+      (∀ e ∈ rest, IsLit e.1) → MInv done acc →
+      MInv (done ++ rest) (rest.foldl mergeDfaStep acc) := by
+  intro rest
+  induction rest with
+  | nil => intro done acc _ h; simpa using h
+  | cons e rest ih =>
+    intro done acc hlit hinv
+    obtain ⟨a, t0⟩ := e
+    have ha : IsLit a := hlit (a, t0) (by simp)
+    rw [List.foldl_cons]
+    have hstep : MInv (done ++ [(a, t0)]) (mergeDfaStep acc (a, t0)) := by
+      unfold mergeDfaStep
+      cases hl : alookup t0 acc with
+      | some old =>
+        simp only
+        obtain ⟨⟨eo, hro, hdo⟩, ao, hao⟩ := hinv.some_ t0 old hl
+        constructor
+        · intro t ht a' hmem
+          rw [alookup_ainsert] at ht
+          by_cases htt : t = t0
+          · rw [if_pos htt] at ht; cases ht
+          · rw [if_neg htt] at ht
+            rcases List.mem_append.mp hmem with h | h
+            · exact hinv.none_ t ht a' h
+            · simp only [List.mem_singleton, Prod.mk.injEq] at h; exact htt h.2
+        · intro t s hs
+          rw [alookup_ainsert] at hs
+          by_cases htt : t = t0
+          · rw [if_pos htt] at hs
+            cases hs
+            subst htt
+            refine ⟨⟨.union eo (.sym a), Renders.union hro (Renders.ofP (Renders.sym ha)), ?_⟩,
+              a, by simp⟩
+            rw [SymsTo_snoc, if_pos rfl]; simp [Rx.den, hdo]
+          · rw [if_neg htt] at hs
+            obtain ⟨⟨e', hr', hd'⟩, a', ha'⟩ := hinv.some_ t s hs
+            refine ⟨⟨e', hr', ?_⟩, a', by simp [ha']⟩
+            rw [SymsTo_snoc, if_neg htt, hd']; simp
+      | none =>
+        simp only
+        constructor
+        · intro t ht a' hmem
+          rw [alookup_ainsert] at ht
+          by_cases htt : t = t0
+          · rw [if_pos htt] at ht; cases ht
+          · rw [if_neg htt] at ht
+            rcases List.mem_append.mp hmem with h | h
+            · exact hinv.none_ t ht a' h
+            · simp only [List.mem_singleton, Prod.mk.injEq] at h; exact htt h.2
+        · intro t s hs
+          rw [alookup_ainsert] at hs
+          by_cases htt : t = t0
+          · rw [if_pos htt] at hs
+            cases hs
+            subst htt
+            refine ⟨⟨.sym a, Renders.ofC (Renders.ofP (Renders.sym ha)), ?_⟩, a, by simp⟩
+            rw [SymsTo_snoc, if_pos rfl]
+            have : SymsTo done t = 0 := by
+              ext w
+              rw [mem_SymsTo]
+              constructor
+              · rintro ⟨a', h', _⟩; exact absurd h' (hinv.none_ t hl a')
+              · intro h'; exact absurd h' (Language.notMem_zero w)
+            rw [this]; simp [Rx.den]
+          · rw [if_neg htt] at hs
+            obtain ⟨⟨e', hr', hd'⟩, a', ha'⟩ := hinv.some_ t s hs
+            refine ⟨⟨e', hr', ?_⟩, a', by simp [ha']⟩
+            rw [SymsTo_snoc, if_neg htt, hd']; simp
+    have := ih (done ++ [(a, t0)]) _ (fun e he => hlit e (List.mem_cons_of_mem _ he)) hstep
+    simpa [List.append_assoc] using this
+
+theorem mergeDfaRow_inv (row : List (Char × σ)) (hlit : ∀ e ∈ row, IsLit e.1) :
+    MInv row (mergeDfaRow row) := by
+  have := mergeDfa_fold row [] [] hlit ⟨fun _ _ _ h => by simp at h, fun _ _ h => by simp at h⟩
+  simpa [mergeDfaRow] using this
+
+theorem alookup_dfaRows (d : DFA σ Char) (p : σ) :
+    alookup p (dfaRows d) = if p ∈ d.states then some (dfaRowFor d p) else none := by
+  unfold dfaRows
+  rw [fold_set_rows]
+  simp
+
+/-- **`from_dfa` preserves the language**: the GNFA built from a valid DFA over literal
+symbols has the documented shape, every label is a well-formed regex string (or `None`), and
+the labelled paths from its initial to its final state are exactly the words the DFA accepts. -/
+theorem fromDFA_spec (rxValid : Str → Res Bool) (natName : Nat → σ)
+    (hinj : Function.Injective natName) (d : DFA σ Char) (wf : d.WF)
+    (hkeys : ∀ kv ∈ d.trans, (akeys kv.2).Nodup) (hlit : ∀ a ∈ d.syms, IsLit a)
+    (g : GNFA σ Str) (h : fromDFA rxValid natName d = .ok g) :
+    Shape (dedup g.states) g.init g.final g.trans ∧
+    ∃ Lb, Denotes Lab g.trans Lb ∧
+      ∀ w, w ∈ GLang Lb g.init g.final ↔ d.accepts w = true := by
+  unfold fromDFA at h
+  set E : σ → σ → Language Char := fun p r => SymsTo (d.row p) r with hEdef
+  -- facts about the rows of the source
+  have hrowAny : ∀ p, d.row p = [] ∨ ∃ trow, alookup p d.trans = some trow ∧ d.row p = trow ∧
+      (p, trow) ∈ d.trans := by
+    intro p
+    cases htrow : alookup p d.trans with
+    | none => left; simp [DFA.row, DFA.row?, htrow]
+    | some trow =>
+      right
+      exact ⟨trow, rfl, by simp [DFA.row, DFA.row?, htrow], alookup_some_mem htrow⟩
+  have hrows : ∀ p, (alookup p (dfaRows d)).isSome ↔ p ∈ d.states := by
+    intro p; rw [alookup_dfaRows]; by_cases hp : p ∈ d.states <;> simp [hp]
+  have hmemtgt : ∀ p a r, (a, r) ∈ d.row p → r ∈ d.states := by
+    intro p a r hmem
+    rcases hrowAny p with h0 | ⟨trow, _, hrow, hmem'⟩
+    · rw [h0] at hmem; simp at hmem
+    · rw [hrow] at hmem
+      exact wf.tgtOk (p, trow) hmem' r (List.mem_map.mpr ⟨(a, r), hmem, rfl⟩)
+  have hinvp : ∀ p, MInv (d.row p) (mergeDfaRow (d.row p)) := by
+    intro p
+    apply mergeDfaRow_inv
+    intro e he
+    rcases hrowAny p with h0 | ⟨trow, _, hrow, hmem⟩
+    · rw [h0] at he; simp at he
+    · rw [hrow] at he
+      exact hlit _ (wf.symsOk (p, trow) hmem e.1 (List.mem_map.mpr ⟨e, he, rfl⟩))
+  have hrowFor : ∀ p, dfaRowFor d p = castRow (mergeDfaRow (d.row p)) := by
+    intro p
+    unfold dfaRowFor
+    cases htrow : alookup p d.trans with
+    | none => simp [DFA.row, DFA.row?, htrow, mergeDfaRow, castRow]
+    | some trow => simp [DFA.row, DFA.row?, htrow]
+  have hEtgt : ∀ p r w, w ∈ E p r → r ∈ d.states := by
+    intro p r w hw
+    obtain ⟨a, hmem, _⟩ := mem_SymsTo.mp hw
+    exact hmemtgt p a r hmem
+  have hrowOf : ∀ p row, alookup p (dfaRows d) = some row →
+      row = castRow (mergeDfaRow (d.row p)) := by
+    intro p row hrow
+    rw [alookup_dfaRows] at hrow
+    by_cases hp : p ∈ d.states
+    · rw [if_pos hp] at hrow
+      rw [← hrowFor p]; exact (Option.some.inj hrow).symm
+    · rw [if_neg hp] at hrow; cases hrow
+  have htgt : ∀ p row, alookup p (dfaRows d) = some row → ∀ r, (alookup r row).isSome →
+      r ∈ d.states := by
+    intro p row hrow r hr
+    rw [hrowOf p row hrow, alookup_castRow, Option.isSome_map] at hr
+    obtain ⟨s, hs⟩ := Option.isSome_iff_exists.mp hr
+    obtain ⟨_, a, ha⟩ := (hinvp p).some_ r s hs
+    exact hmemtgt p a r ha
+  have hE : ∀ p row, alookup p (dfaRows d) = some row → ∀ r, LabO (E p r) ((alookup r row).join) := by
+    intro p row hrow r
+    rw [hrowOf p row hrow, alookup_castRow]
+    cases hs : alookup r (mergeDfaRow (d.row p)) with
+    | none =>
+      show E p r = 0
+      ext w
+      constructor
+      · intro hw
+        obtain ⟨a, hmem, _⟩ := mem_SymsTo.mp hw
+        exact absurd hmem ((hinvp p).none_ r hs a)
+      · intro hw; exact absurd hw (Language.notMem_zero w)
+    | some s =>
+      obtain ⟨⟨e, hr, hd⟩, _⟩ := (hinvp p).some_ r s hs
+      exact Or.inr ⟨e, hr, hd⟩
+  obtain ⟨hqi, hqf, hne, hShape, hDen⟩ := finishBuild_denotes rxValid natName hinj d.states d.syms
+    (dfaRows d) d.init d.finals E hrows htgt hE wf.initOk wf.finalsOk g h
+  refine ⟨hShape, _, hDen, ?_⟩
+  intro w
+  rw [GLang_srcLb d.states E d.init d.finals g.init g.final hqi hqf hne hEtgt wf.initOk]
+  -- paths of the symbol graph are runs of the DFA
+  have hstep : ∀ p a m, (a, m) ∈ d.row p → d.step? (some p) a = some m := by
+    intro p a m hmem
+    rcases hrowAny p with h0 | ⟨trow, _, hrow, hmem'⟩
+    · rw [h0] at hmem; simp at hmem
+    · show alookup a (d.row p) = some m
+      rw [hrow] at hmem ⊢
+      exact alookup_eq_some_of_mem (hkeys (p, trow) hmem') hmem
+  have fwd : ∀ p f w, Walk E p f w → f ∈ d.finals → d.isFinal (d.run (some p) w) = true := by
+    intro p f w hw
+    induction hw with
+    | nil p => intro hf; simp [DFA.isFinal, hf]
+    | @cons p m r u v hu _ ih =>
+      intro hf
+      obtain ⟨a, hmem, rfl⟩ := mem_SymsTo.mp hu
+      have : d.run (some p) ([a] ++ v) = d.run (some m) v := by
+        simp only [List.singleton_append, DFA.run_cons, hstep p a m hmem]
+      rw [this]; exact ih hf
+  have bwd : ∀ w p, d.isFinal (d.run (some p) w) = true → ∃ f ∈ d.finals, Walk E p f w := by
+    intro w
+    induction w with
+    | nil =>
+      intro p hp
+      refine ⟨p, ?_, Walk.nil p⟩
+      simpa [DFA.isFinal] using hp
+    | cons a v ih =>
+      intro p hp
+      rw [DFA.run_cons] at hp
+      cases hs : d.step? (some p) a with
+      | none => rw [hs, DFA.run_none] at hp; simp [DFA.isFinal] at hp
+      | some m =>
+        rw [hs] at hp
+        obtain ⟨f, hf, hw⟩ := ih m hp
+        have hmem : (a, m) ∈ d.row p := alookup_some_mem hs
+        have hu : [a] ∈ E p m := mem_SymsTo.mpr ⟨a, hmem, rfl⟩
+        exact ⟨f, hf, by simpa using Walk.cons hu hw⟩
+  unfold DFA.accepts
+  constructor
+  · rintro ⟨f, hf, hw⟩; exact fwd _ _ _ hw hf
+  · intro hacc; exact bwd w d.init hacc
+
 end AV.GNFA
